@@ -116,6 +116,10 @@ ENGINES = {
                     "sim/net/net_main.cpp", "sim/core/layout.cpp"],
         "libs": ["-lsmt", "-ljson", "-lz3", "-lgmpxx", "-lgmp"],
     },
+    "io": {
+        "sources": ["sim/io/io_main.cpp"],
+        "libs": ["-lsolver", "-lcore", "-lriddle", "-lsmt", "-ljson"],
+    },
     "plan": {
         "sources": ["sim/plan/plan_main.cpp", "sim/core/layout.cpp"],
         "libs": ["-lsolver", "-lcore", "-lriddle", "-lsmt", "-ljson", "-lz3", "-lgmpxx", "-lgmp"],
